@@ -9,6 +9,7 @@ import (
 	"strings"
 
 	"golang.org/x/tools/go/ssa"
+	"golang.org/x/tools/go/ssa/ssautil"
 )
 
 func init() {
@@ -765,8 +766,7 @@ func (ck *Check) emptinessShape(rule string) {
 				for _, in := range b.Instrs {
 					if c, ok := in.(*ssa.Call); ok && c.Common().StaticCallee() != nil && c.Common().StaticCallee().Name() == "AddPod" {
 						argT := ctx.Term(c.Common().Args[1])
-						hdrPC := ctx.BlockPC(podLoop.Header)
-						bodyPC := And(hdrPC, ctx.edgeCond(podLoop.Header, podLoop.Header.Succs[0]))
+						bodyPC := podLoop.bodyPC(ctx)
 						eq, _, _ := Equivalent(ctx.PC(c), bodyPC)
 						recv := ctx.Term(c.Common().Args[0])
 						keyOK := recv.Kind == "lookup" && recv.Args[1].Key() == ck.podField(argT, "Spec", "NodeName").Key()
@@ -857,7 +857,7 @@ func (ck *Check) counterEdge(ctx *Ctx, l *Loop, ph *ssa.Phi, e ssa.Value, incs *
 					*why = append(*why, "increment is not guarded by a PodIsDaemonSet test on the loop element")
 					return
 				}
-				body := And(ctx.BlockPC(l.Header), ctx.edgeCond(l.Header, l.Header.Succs[0]))
+				body := l.bodyPC(ctx)
 				eq, _, _ := Equivalent(pc, And(body, Not(ds)))
 				if !eq {
 					*okp = false
@@ -870,7 +870,7 @@ func (ck *Check) counterEdge(ctx *Ctx, l *Loop, ph *ssa.Phi, e ssa.Value, incs *
 				*incs++
 				pc := ctx.PC(x)
 				ds := ck.daemonSetOfElem(ctx, l)
-				body := And(ctx.BlockPC(l.Header), ctx.edgeCond(l.Header, l.Header.Succs[0]))
+				body := l.bodyPC(ctx)
 				if ds == nil {
 					*okp = false
 					*why = append(*why, "decrement is not guarded by a PodIsDaemonSet test on the loop element")
@@ -920,7 +920,7 @@ func (ck *Check) restartInvariance(rule string) {
 			for _, b := range g.Blocks {
 				for _, in := range b.Instrs {
 					if u, ok := in.(*ssa.UnOp); ok {
-						if gl, ok := u.X.(*ssa.Global); ok && ck.P.isShippedPkg(gl.Pkg.Pkg) && gl.Pkg.Pkg.Path() != repoModule+"/pkg/metrics" {
+						if gl, ok := u.X.(*ssa.Global); ok && ck.P.isShippedPkg(gl.Pkg.Pkg) && gl.Pkg.Pkg.Path() != repoModule+"/pkg/metrics" && !ck.constantTable(gl) {
 							bad = append(bad, "global "+gl.Name())
 						}
 					}
@@ -1191,7 +1191,7 @@ func (ck *Check) protectedPredicate(rule string) {
 	// the search loop must be a map range without break (return false only after exhaustion)
 	for _, l := range loopsOf(fn) {
 		for _, e := range l.Exits {
-			if e[0] != l.Header {
+			if !l.exhaustionExit(e[0]) {
 				// exits from inside: must be the `return true` blocks
 				if r, ok := e[1].Instrs[len(e[1].Instrs)-1].(*ssa.Return); ok {
 					if vidx < len(r.Results) {
@@ -1569,7 +1569,7 @@ func (ck *Check) collectFrom(fn *ssa.Function, ctx *Ctx, slice ssa.Value, fieldI
 			return nil, "collect loop is not a full traversal"
 		}
 		// unconditional in the loop body
-		body := And(ctx.BlockPC(l.Header), ctx.edgeCond(l.Header, l.Header.Succs[0]))
+		body := l.bodyPC(ctx)
 		if eq, _, _ := Equivalent(ctx.PC(ap.Call), body); !eq {
 			return nil, "collect append is conditional"
 		}
@@ -2024,4 +2024,64 @@ func (ck *Check) memCounter(ctx *Ctx, t *Term, outerFn *ssa.Function) (bool, []s
 		why = append(why, "loop does not range over the pods filed under node.Name: "+over.String())
 	}
 	return len(why) == 0, why
+}
+
+// constantTable: the package-level variable is written only by its package's initialiser — never
+// assigned, and (for a map or a slice) never updated through a load of it, and its address goes
+// nowhere: a table of constants, the same after every restart.
+func (ck *Check) constantTable(gl *ssa.Global) bool {
+	for fn := range ssautil.AllFunctions(ck.P.SSA) {
+		if fn.Pkg != gl.Pkg {
+			continue
+		}
+		isInit := fn.Name() == "init" && fn.Synthetic != ""
+		for _, b := range fn.Blocks {
+			for _, in := range b.Instrs {
+				for _, op := range in.Operands(nil) {
+					if *op != ssa.Value(gl) {
+						continue
+					}
+					switch x := in.(type) {
+					case *ssa.UnOp:
+						// a load: what is done with the loaded map / slice?
+						if x.Op != token.MUL {
+							return false
+						}
+						if isInit {
+							continue
+						}
+						for _, r := range *x.Referrers() {
+							switch y := r.(type) {
+							case *ssa.MapUpdate:
+								if y.Map == ssa.Value(x) {
+									return false
+								}
+							case *ssa.IndexAddr:
+								for _, rr := range *y.Referrers() {
+									if st, ok := rr.(*ssa.Store); ok && st.Addr == ssa.Value(y) {
+										return false
+									}
+								}
+							case *ssa.Lookup, *ssa.Index, *ssa.Range, *ssa.DebugRef:
+							case *ssa.Call:
+								if _, isB := y.Common().Value.(*ssa.Builtin); !isB {
+									return false
+								}
+							default:
+								return false
+							}
+						}
+					case *ssa.Store:
+						if !isInit || x.Addr != ssa.Value(gl) {
+							return false
+						}
+					case *ssa.DebugRef:
+					default:
+						return false
+					}
+				}
+			}
+		}
+	}
+	return true
 }
